@@ -290,7 +290,10 @@ def word_index(ctx):
             # the index list is the first argument of change_base(<indices>, 2048, 256, ...)
             if isinstance(s_, tuple) and s_[0] == 'call' and s_[1] == 'change_base' and len(s_[2]) >= 3 and s_[2][1] == 2048:
                 a0 = s_[2][0]
-                if isinstance(a0, tuple) and a0[0] == 'after-loop' and isinstance(a0[4], tuple) and a0[4][0] == 'list' and len(a0[4]) == 2:
+                if isinstance(a0, tuple) and a0[0] == 'list' and len(a0) == 2 and isinstance(a0[1], tuple) and a0[1][0] == 'repeat' and \
+                        isinstance(a0[1][3], tuple) and a0[1][3][0] == 'list' and len(a0[1][3]) == 2:
+                    look.append(a0[1][3][1])
+                elif isinstance(a0, tuple) and a0[0] == 'after-loop' and isinstance(a0[4], tuple) and a0[4][0] == 'list' and len(a0[4]) == 2:
                     look.append(a0[4][1])
                 elif isinstance(a0, tuple) and a0[0] == 'repeat':
                     look.append(a0[3])
